@@ -64,7 +64,7 @@ int main(int argc, char** argv) {
     for (i = 0; i < T; i++) for (j = 0; j < K; j++) { printf("S %u %d\n", (unsigned)(i * 1000 + j + 1) | ((unsigned)DEPTH << 24), (int)args[i].rets[j]); if ((int)args[i].rets[j] > 0) total++; }
     /* wait (bounded) until every started thread - and every thread those started - has logged */
     total *= DEPTH + 1;
-    while (m_count(&inst) < (U32)total && waited < 20000) { usleep(1000); waited++; }
+    while (m_count(&inst) < (U32)total && waited < 5000) { usleep(1000); waited++; }
     usleep(20000);    /* a thread started twice would still be logging */
     {
         U32 n = m_count(&inst), r;
